@@ -21,6 +21,8 @@ UNIT = {
                   {'rule': 'R2', 'find': 'file_offset:', 'replace': 'pub file_offset:'}]},
   'Lexer::new': {'kind': 'fn', 'file': L, 'container': r"^impl<'a> Lexer<'a>$", 'name': 'new', 'props': ['C01'],
      'ensures': [('new_at_start', 'r.buf@ == buf@ && r.pos == 0 && r.file_offset == 0')]},
+  'Lexer::get_pos': {'kind': 'fn', 'file': L, 'container': r"^impl<'a> Lexer<'a>$", 'name': 'get_pos', 'props': ['C01'],
+     'ensures': [('get_pos_is_pos', 'r == self.pos')]},
 
   'struct ObjStmInfo': {'kind': 'decl', 'file': S, 'header': r'^pub struct ObjStmInfo$',
      # R2: `extends` is not mentioned by any extracted function
@@ -53,22 +55,29 @@ UNIT = {
         'it.index@ <= stream.info.num_objects',
      ]}},
      'rewrites': [
-        # R1 ghost: snapshot of the loop-carried state, the two failure lemmas up front, the step lemma after the second read
-        {'rule': 'R1', 'find': 'let _obj_nr = lexer.next()?.to::<ObjNr>()?;',
-         'replace': 'let ghost pos0 = lexer.pos as int; let ghost done0 = offsets@;'
+        # R1 ghost, anchored on SHAPES only (the two reads themselves carry no anchor: `lexer.next()?.to::<T>()?`,
+        # `lexer.next_as::<T>()?`, a read nested in the `push(..)` argument, renamed temporaries all stay verbatim):
+        # (a) in front of the header loop: the length lemma;
+        # (b) at the top of the loop body: snapshot of the loop-carried state + the two "a failing token kills the header"
+        #     lemmas, each guarded by its own hypothesis (both talk about the buffer and the position before the pair only);
+        # (c) after `offsets.push(<e>)`: the step lemma for the value just pushed, guarded by its hypotheses (a wrong value
+        #     pushed fails the progress invariant, not a lemma precondition).
+        {'rule': 'R1', 'regex': r'\bfor\s+(\w+)\s+in\s+([^{;]*?)\s*\{',
+         'replace': r'proof { lemma_header_len(data@, 0, stream.info.num_objects as nat); } for \1 in \2 {'
+                    ' let ghost pos0 = lexer.pos as int; let ghost done0 = offsets@;'
                     ' let ghost left = (stream.info.num_objects - it.index@) as nat;'
                     ' proof { if lex_word(data@, pos0) is None || <u64 as FromDec>::dec(lex_word(data@, pos0).unwrap().0) is None'
-                    ' { lemma_header_fail1(data@, pos0, left, done0); } }'
-                    ' let _obj_nr = lexer.next()?.to::<ObjNr>()?;'
-                    ' let ghost pos1 = lexer.pos as int;'
-                    ' proof { if lex_word(data@, pos1) is None || <usize as FromDec>::dec(lex_word(data@, pos1).unwrap().0) is None'
+                    ' { lemma_header_fail1(data@, pos0, left, done0); }'
+                    ' else if lex_word(data@, lex_word(data@, pos0).unwrap().1) is None'
+                    ' || <usize as FromDec>::dec(lex_word(data@, lex_word(data@, pos0).unwrap().1).unwrap().0) is None'
                     ' { lemma_header_fail2(data@, pos0, left, done0); } }'},
-        {'rule': 'R1', 'find': 'let offset = lexer.next()?.to::<usize>()?;',
-         'replace': 'let offset = lexer.next()?.to::<usize>()?;'
-                    ' proof { let t1 = lex_word(data@, pos0).unwrap(); let t2 = lex_word(data@, pos1).unwrap();'
-                    ' lemma_header_step(data@, pos0, left, done0, t1.0, t1.1, t2.0, t2.1, offset); }'},
-        {'rule': 'R1', 'find': 'Ok(ObjectStream {',
-         'replace': 'proof { lemma_header_len(stream_data(&stream, resolve)->Ok_0, 0, stream.info.num_objects as nat); } Ok(ObjectStream {'},
+        {'rule': 'R1', 'regex': r'\boffsets\s*\.\s*push\(([^;]*)\);',
+         'replace': r'offsets.push(\1);'
+                    ' proof { if lex_word(data@, pos0) is Some && <u64 as FromDec>::dec(lex_word(data@, pos0).unwrap().0) is Some'
+                    ' && lex_word(data@, lex_word(data@, pos0).unwrap().1) is Some'
+                    ' && <usize as FromDec>::dec(lex_word(data@, lex_word(data@, pos0).unwrap().1).unwrap().0) == Some(offsets@.last())'
+                    ' { let t1 = lex_word(data@, pos0).unwrap(); let t2 = lex_word(data@, t1.1).unwrap();'
+                    ' lemma_header_step(data@, pos0, left, done0, t1.0, t1.1, t2.0, t2.1, offsets@.last()); } }'},
      ]},
 
   # ---- member slicing (C11), no overflow / no panic for hostile offsets (C14, C01)
